@@ -57,3 +57,8 @@ mod tests {}
 pub trait Rpc<Error, Request, Response> {
     fn call(&mut self, request: &Request) -> core::result::Result<Response, Error>;
 }
+
+// Verification hooks (contract proofs run by `cargo kani`; inert in every other build).
+#[cfg(kani)]
+#[path = "/verif/kani/proofs.rs"]
+mod verif_proofs;
